@@ -64,7 +64,7 @@ def dispatch_table(ctx, cname, server):
     datap = f.params[2] if server else f.params[1]
     pre = [eio] if server else []
     for t in TYPES:
-        run = Run(f.node, oracle=type_oracle(t, False))
+        run = run_function(f, ctx.model, oracle=type_oracle(t, False))
         paths = run.paths
         if len(paths) != 1:
             raise AnalysisError('%s: %d paths for packet type %s; a test in '
@@ -157,7 +157,7 @@ def reassembly(ctx, cname, server):
     tgt = 'self._binary_packet[%s]' % eio if server else 'self._binary_packet'
     for done in (True, False):
         for t in ('BINARY_EVENT', 'BINARY_ACK'):
-            run = Run(f.node, oracle=type_oracle(t, True, done))
+            run = run_function(f, ctx.model, oracle=type_oracle(t, True, done))
             if len(run.paths) != 1:
                 raise AnalysisError('%s: %d paths in the attachment arm'
                                     % (construct, len(run.paths)))
@@ -306,7 +306,7 @@ def server_ack(ctx, fam, rid_ack, rid_pack=None):
         raise AnalysisError('%s signature changed: %s' % (construct, ps))
     for idval in (None, 0, 'pos'):
         for handled in (True, False):
-            run = Run(f.node, oracle=id_oracle('id', idval, handled))
+            run = run_function(f, ctx.model, oracle=id_oracle('id', idval, handled))
             normal = [p for p in run.paths if p.normal]
             for p in normal:
                 acks = [(e, pk, tgt) for e, pk, tgt in sends(run, p)
@@ -352,7 +352,7 @@ def client_ack(ctx, fam, rid_ack, rid_pack=None):
     if f.params[1:] != ['namespace', 'id', 'data']:
         raise AnalysisError(construct + ' signature changed')
     for idval in (None, 0, 'pos'):
-        run = Run(f.node, oracle=id_oracle('id', idval, True))
+        run = run_function(f, ctx.model, oracle=id_oracle('id', idval, True))
         for p in run.paths:
             if not p.normal:
                 continue
@@ -403,6 +403,7 @@ def callback_typestate(ctx, cname, fname, keys, rid):
     n_invoke = n_fail = 0
     for p in run.paths:
         inv = []
+        popped = 'self.callbacks[%s].pop(%s)' % (k1, k2)
         for e in p.events:
             if e.kind != 'call':
                 continue
@@ -410,6 +411,10 @@ def callback_typestate(ctx, cname, fname, keys, rid):
             if isinstance(fx, ast.Subscript) and \
                     'self.callbacks' in U(fx):
                 inv.append((e, U(fx)))
+            elif isinstance(fx, ast.Call) and U(fx) == popped:
+                # remove-and-get in one step: the entry is gone before the
+                # callback runs
+                inv.append((e, entry))
         failed = any(e.kind == 'lookup-fails' for e in p.events)
         if failed:
             n_fail += 1
@@ -431,6 +436,8 @@ def callback_typestate(ctx, cname, fname, keys, rid):
                 (d.kind == 'call' and d.callee() == 'pop' and
                  U(run.expand(d.expr)).startswith(
                      'self.callbacks[%s].pop(%s' % (k1, k2))))]
+            if not any(d.kind == 'lookup-fails' for d in p.events):
+                pass
             whole = [d for d in p.events if d.kind == 'del' and
                      U(run.expand(d.expr)) == 'self.callbacks[%s]' % k1]
             ctx.check(bool(dels) and not whole, construct, 'exactly the '
@@ -459,50 +466,63 @@ def table_provenance(ctx, cname, rid):
     m = ctx.model
     c = m.cls(cname)
     n = 0
+    seen = set()
     for f in m.funcs:
-        if f.cls is None or c not in m.mro(f.cls) and f.cls is not c:
+        if f.cls is None or (c not in m.mro(f.cls) and f.cls is not c):
             continue
-        for node in m._walk_own(f.node):
-            if not isinstance(node, ast.Assign):
-                continue
-            for t in node.targets:
-                if not (isinstance(t, ast.Subscript) and
-                        U(t).startswith('self.callbacks[')):
+        if 'callbacks' not in ast.unparse(f.node):
+            continue
+        run = run_function(f, m, max_iter=1)
+        construct = '%s.%s' % (f.cls.name, f.name)
+        for p in run.paths:
+            for e in p.events:
+                if e.kind != 'store':
                     continue
-                depth = U(t).count('[')
-                construct = '%s.%s' % (f.cls.name, f.name)
+                t = run.expand(e.expr)
+                tt = U(t)
+                if not tt.startswith('self.callbacks['):
+                    continue
+                key = (e.lineno, tt)
+                if key in seen:
+                    continue
+                seen.add(key)
+                depth = 0
+                x = t
+                while isinstance(x, ast.Subscript):
+                    depth += 1
+                    x = x.value
+                v = e.extra
                 if depth == 2:
                     n += 1
-                    v = node.value
-                    ctx.check(isinstance(v, ast.Name) and
-                              v.id in f.params, construct,
-                              'value stored in callbacks[.][.] is the '
-                              'parameter %s' % U(v), key='stored-value',
-                              reason='non-parameter value %s stored among '
-                              'the callbacks' % U(v), where=where(f, node),
-                              rid=rid)
-                elif depth == 1 and isinstance(node.value, ast.Dict):
-                    for k, v in zip(node.value.keys, node.value.values):
+                    ctx.check(isinstance(v, ast.Name) and v.id in f.params,
+                              construct, 'value stored in callbacks[.][.] '
+                              'is the parameter %s' % U(v),
+                              key='stored-value', reason='non-parameter '
+                              'value %s stored among the callbacks' % U(v),
+                              where=where(f, e.node), rid=rid)
+                elif depth == 1:
+                    d = run.expand(v)
+                    if not isinstance(d, ast.Dict):
                         n += 1
-                        sentinel = isinstance(k, ast.Name) and \
-                            isinstance(f.module.globals.get(k.id), ast.Call) \
-                            and U(f.module.globals[k.id]) == 'object()'
+                        ctx.bad(construct, 'init', 'per-client callback '
+                                'table initialised with %s' % U(d),
+                                where(f, e.node), rid=rid)
+                        continue
+                    for k, val in zip(d.keys, d.values):
+                        n += 1
+                        sentinel = isinstance(k, ast.Name) and isinstance(
+                            f.module.globals.get(k.id), ast.Call) and \
+                            U(f.module.globals[k.id]) == 'object()'
                         ctx.check(sentinel, construct, 'the non-callback '
                                   'value %s sits under the private sentinel '
-                                  'key %s' % (U(v), U(k)),
+                                  'key %s' % (U(val), U(k)),
                                   key='non-callback value under '
                                   'wire-representable key',
                                   reason='the non-callback value %s is '
                                   'stored in the callback table under key '
                                   '%s, which an acknowledgement id decoded '
-                                  'from the wire can equal' % (U(v), U(k)),
-                                  where=where(f, node), rid=rid)
-                elif depth == 1:
-                    n += 1
-                    ctx.check(isinstance(node.value, ast.Dict), construct,
-                              'per-client table initialised with a dict '
-                              'display', key='init', where=where(f, node),
-                              rid=rid)
+                                  'from the wire can equal' % (U(val), U(k)),
+                                  where=where(f, e.node), rid=rid)
     if not n:
         ctx.bad(cname, 'no-stores', 'no store into callbacks found', None,
                 rid=rid)
@@ -521,12 +541,14 @@ def counter_discipline(ctx, cname, keyparam, rid):
     for p in run.paths:
         if not p.normal:
             continue
+        def tgt(e):
+            return U(run.expand(e.expr))
         creates = [e for e in p.events if e.kind == 'store' and
-                   U(e.expr).count('[') == 1 and
-                   U(e.expr).startswith('self.callbacks[')]
+                   tgt(e).count('[') == 1 and
+                   tgt(e).startswith('self.callbacks[')]
         for e in creates:
             saw_create += 1
-            key = e.expr.slice
+            key = run.expand(e.expr).slice
 
             def absent(c):
                 a = run.expand(c.atom)
@@ -549,8 +571,11 @@ def counter_discipline(ctx, cname, keyparam, rid):
                   'next(<the client\'s counter>)', key='id-source',
                   reason='returns %s' % txt(rv), where=w, rid=rid)
         st = [e for e in p.events if e.kind == 'store' and
-              U(e.expr).count('[') == 2 and U(e.extra) == cb and
-              p.value is not None and U(e.expr.slice) == U(p.value)]
+              tgt(e).startswith('self.callbacks[') and
+              isinstance(run.expand(e.expr), ast.Subscript) and
+              isinstance(run.expand(e.expr).value, ast.Subscript) and
+              U(e.extra) == cb and p.value is not None and
+              U(run.expand(e.expr.slice)) == U(run.expand(p.value))]
         ctx.check(bool(st), construct, 'the callback is stored under the '
                   'returned id', key='store-under-id',
                   reason='the callback is not stored under the id that is '
